@@ -29,7 +29,7 @@ class EpCase:
                 "replay_cmd": "echo '<runner_job as one JSON line>' | %s" % core.RUNNER_BIN}
 
 
-def gen_cases(rng, count, force=None, multi_eval=False, prefix="c"):
+def gen_cases(rng, count, force=None, multi_eval=False, prefix="c", tweak=None):
     cases = []
     for i in range(count):
         fspec, user = gen.gen_factors_spec(rng)
@@ -52,6 +52,8 @@ def gen_cases(rng, count, force=None, multi_eval=False, prefix="c"):
         # with load matching, production is a small rational multiple of use so that exact
         # rational results keep small denominators (evaluation cost), except for short series
         b = gen.gen_building(rng, force=force, ratio_only=any(lm for (_, _, lm) in evals))
+        if tweak is not None:
+            tweak(rng, b)
         c = EpCase("%s%d" % (prefix, i), {"text": b.text()}, fspec, user, evals, strip=rng.random() < 0.3,
                    tags=b.tags)
         c.n = b.n
